@@ -202,6 +202,7 @@ def worker(ctx):
             rng = __import__("random").Random(f"{ctx.replay['seed']}:C19:{ctx.replay['witness']['shard']}:case:{case_id}")
         cfg = pycommon.cfg_for_case(rng, case_id)
         cfg.msg_bits = min(cfg.msg_bits, 2000)
+        cfg.p_transitive_ref = 0.0  # `b.c.M` has no well-formed Go rendering (C10 known finding go-transitive-import-reference, judged there)
         root = gen.gen_schema(rng, cfg)
         d = ctx.casedir(case_id)
         wit = {"case": case_id, "shard": ctx.shard}
